@@ -166,7 +166,12 @@ func TestVerifC01(t *testing.T) {
 				obs = fmt.Sprintf("OOk %d", id)
 				// oracle: an accepted (payload, device, counter) must be one an honest seal produced
 				honest := bytes.Equal(x.dev, sdevRaw) && x.ctr >= 1 && x.ctr <= n && bytes.Equal(x.payload, pays[x.ctr])
-				if !honest {
+				if presented == "PGarbage" {
+					// an envelope altered in any bit (or presented with another group's secret) is rejected,
+					// even when what it would deliver is the original content
+					ok, sig = false, "forged envelope accepted"
+					note = fmt.Sprintf("an altered envelope was accepted (payload id %d, counter %d): %v", id, x.ctr, replay)
+				} else if !honest {
 					ok = false
 					if id >= 100001 && id <= 100000+n && bytes.Equal(x.dev, sdevRaw) {
 						sig = "signed payload replayed under another counter by a chain-key holder"
@@ -238,6 +243,45 @@ func TestVerifC01(t *testing.T) {
 					r, hist = freshRecv() // state was disturbed by an (unexpected) acceptance
 				}
 			}
+		}
+
+		// (B2) the same flips AFTER the genuine envelope has been opened on that store (anything the store
+		// keeps from the first opening must not let an altered copy through), presented under the CID
+		// of the genuine entry; and the genuine envelope presented under the secret of another group
+		{
+			small := 1
+			for k := 1; k <= n; k++ {
+				if len(envs[k]) < len(envs[small]) {
+					small = k
+				}
+			}
+			r, hist := freshRecv(small)
+			data := envs[small]
+			budget := vharness.Budget(800, 20000)
+			step := 1
+			if len(data)*8 > budget {
+				step = len(data) * 8 / budget
+			}
+			for bit := 0; bit < len(data)*8; bit += step {
+				m := append([]byte(nil), data...)
+				m[bit/8] ^= 1 << (bit % 8)
+				x := c01try(ctx, r, g, nil, m, vCID(data))
+				keySuffix = fmt.Sprintf("#after-open-bit-%d", bit)
+				emit("bitflip-after-open", hist, "PGarbage", uint64(100000+small), x, true, map[string]any{"bit": bit, "message": small, "genuine_opened_first": true})
+				keySuffix = ""
+				if x.ok {
+					r, hist = freshRecv(small)
+				}
+			}
+			g2 := vGroup(t, 0, snd)
+			_, _, err := r.OpenEnvelopeHeaders(data, g2)
+			x := c01open{err: "headers: rejected"}
+			if err == nil {
+				x = c01open{ok: true, dev: sdevRaw, ctr: 0, payload: []byte("headers of an envelope of the group opened under the secret of another group")}
+			}
+			keySuffix = "#other-group-after-open"
+			emit("other-group-after-open", hist, "PGarbage", uint64(100000+small), x, true, "genuine envelope, headers opened with another group's secret after a first opening")
+			keySuffix = ""
 		}
 
 		// (C) field substitution between two honest envelopes, and envelopes of another group / device
